@@ -309,6 +309,11 @@ def _variants():
     o["U.pad:numvec"] = lambda c: U.pad(c.img(), num=c.axisvec([1, 0, 2, 1, 0, 1], dtype=torch.int64, name="num", n=2 * c.D))
     o["U.evaluate_cubic_bspline:kernel"] = lambda c: U.evaluate_cubic_bspline(c.flow(), stride=2, kernel=c.pick([lambda: c.bspline_kernel(2), lambda: [c.bspline_kernel(2) for _ in range(c.D)]])(), transpose=False)
     o["U.evaluate_cubic_bspline:kernel1d"] = lambda c: U.evaluate_cubic_bspline(c.flow(), stride=1, kernel=c.pick([lambda: c.bspline_kernel(1, one_d=True), lambda: [c.bspline_kernel(1, one_d=True) for _ in range(c.D)]])(), transpose=False)
+    # lower-rank forms of arguments (unbatched transforms, flows without batch axis, labels without channel axis)
+    o["U.homogeneous_transform:ranks"] = lambda c: U.homogeneous_transform(c.pick([lambda: c.sub(c.mat(), 0), lambda: c.sub(c.mat(), 0, slice(None), -1), lambda: c.sub(c.mat(), 0, slice(None), slice(0, c.D)), lambda: c.mat()])(), c.pick([c.pts, lambda: c.sub(c.pts(), 0), lambda: c.sub(c.pts(), 0, 0)])(), vectors=c.pick([False, True]))
+    o["U.warp_image:unbatched_flow"] = lambda c: U.warp_image(c.img(), c.coords(), flow=c.sub(c.disp_last(), 0))
+    o["L.tversky_index:label_target"] = lambda c: L.tversky_index(c.img1(), c.sub(c.mask(), slice(None), 0), binarize=c.pick([False, True]))
+    o["U.as_one_hot_tensor:ignore"] = lambda c: U.as_one_hot_tensor(c.labels(), 3, ignore_index=c.pick([2, 1, 0, None]), dtype=c.pick([None, torch.float32]))
     o["U.derivatives:sigvec"] = lambda c: c.pick([U.divergence, U.jacobian_det, U.curl])(c.flow(), sigma=c.pick([0.8, 0.0]), spacing=c.axisvec([1.0, 2.0, 0.5], name="spacing"), mode=c.pick([None, "central", "bspline"]))
     o["U.derivatives:spacing"] = lambda c: c.pick([U.divergence, U.jacobian_det, U.curl, U.jacobian_matrix])(c.flow(), spacing=c.spacing_arg(), mode=c.pick([None, "central", "forward"]))
     o["U.spatial_derivatives:spacing"] = lambda c: U.spatial_derivatives(c.img(), which=c.pick(["x", ["x", "y"]]), spacing=c.spacing_arg(), mode=c.pick([None, "central", "bspline"]))
